@@ -17,7 +17,7 @@ from typing import Any, Dict, List, Optional, Tuple
 
 from ..core import PropCheck
 
-SYNC_OPS = ["enter_context", "push_mgr", "push_fn", "push_bound", "push_builtin_bound", "callback"]
+SYNC_OPS = ["enter_context", "push_mgr", "push_fn", "push_bound", "push_builtin_bound", "push_builtin_fn", "callback"]
 ASYNC_OPS = ["enter_async_context", "push_async_exit_mgr", "push_async_exit_fn", "push_async_callback"]
 
 
@@ -31,7 +31,9 @@ def rand_node(rng: random.Random, depth: int, want_async: Optional[bool] = None)
     k = rng.choice(kinds)
     is_async = rng.random() < 0.5 if want_async is None else want_async
     if k == "plain":
-        return {"kind": "plain", "async": is_async, "falsy": rng.random() < 0.2}
+        # style 0: methods named __exit__/__aexit__; 1: the exit is an alias of a differently named method (__exit__ = close);
+        # 2: a decorator (without functools.wraps) around it
+        return {"kind": "plain", "async": is_async, "falsy": rng.random() < 0.2, "style": rng.choice([0, 0, 1, 2])}
     if k == "gcm":
         nbody = rng.choice([0, 0, 1, 2]) if depth > 0 else 0
         return {"kind": "gcm", "async": is_async, "yield_from": (0 if is_async or rng.random() < 0.5 else rng.randint(1, 3)),
@@ -77,25 +79,51 @@ class Builder:
             if node["async"]:
                 block = node.get("block")
 
+                style = 0 if block else int(node.get("style") or 0)
+
+                def deco(fn):
+                    def wrapper(*a):
+                        return fn(*a)
+                    return wrapper
+
                 class APlain:
                     async def __aenter__(s):
                         return s
 
-                    async def __aexit__(s, *a):
+                    async def aclose(s, *a):
                         if block:
                             await trap()        # the holder is observed suspended here, while the stack is exiting
                         return False
+
+                    __aexit__ = aclose if style == 1 else deco(aclose)
+                    if style == 0:
+                        async def __aexit__(s, *a):
+                            if block:
+                                await trap()
+                            return False
 
                     def __bool__(s):
                         return not falsy
                 m: Any = APlain()
             else:
+                style = int(node.get("style") or 0)
+
+                def deco(fn):
+                    def wrapper(*a):
+                        return fn(*a)
+                    return wrapper
+
                 class Plain(list if falsy else object):     # an empty list subclass is falsy
                     def __enter__(s):
                         return s
 
-                    def __exit__(s, *a):
+                    def close(s, *a):
                         return False
+
+                    __exit__ = close if style == 1 else deco(close)
+                    if style == 0:
+                        def __exit__(s, *a):
+                            return False
                 m = Plain()
             node["_tag"] = self.tag(m, "m")
             return m
@@ -189,6 +217,10 @@ class Builder:
                 lk.acquire()
                 op.append(self.tag(lk, "m"))
                 st.push(lk.__exit__)
+            elif name == "push_builtin_fn":
+                # a builtin function: it has a __self__ (its module) without being bound to any manager
+                op.append(self.ids.get(id(print)) or self.tag(print, "f"))     # (the same object every time)
+                st.push(print)
             elif name in ("callback", "push_async_callback"):
                 if name == "callback":
                     def cb(*a, **kw):
@@ -201,7 +233,7 @@ class Builder:
         return st
 
 
-METHOD = {"enter_context": "enter_context", "push_mgr": "enter_context", "push_fn": "push", "push_bound": "push", "push_builtin_bound": "enter_context",
+METHOD = {"enter_context": "enter_context", "push_mgr": "enter_context", "push_fn": "push", "push_bound": "push", "push_builtin_bound": "push", "push_builtin_fn": "push",
           "callback": "callback",
           "enter_async_context": "enter_async_context", "push_async_exit_mgr": "enter_async_context",
           "push_async_exit_fn": "push_async_exit", "push_async_callback": "push_async_callback"}
@@ -268,10 +300,10 @@ class C09(PropCheck):
     real_time_limit = 30.0
     rule = ("trees of depth <= 3 (quick) / <= 5 (thorough): plain managers (sync/async, some falsy), generator-based managers "
             "(sync/async, with or without yield from, 0-2 managers in their body), ExitStack / AsyncExitStack with 0-5 random "
-            "registration calls out of the eight; observed suspended in the body, (async generator-based roots) while "
+            "registration calls out of the eight (push also with a builtin function and a builtin bound method; managers also with an aliased or decorated exit method); observed suspended in the body, (async generator-based roots) while "
             "exiting, and (async exit stacks) while the stack is exiting with earlier registrations still pending; non-trivial = the tree has an exit stack with children or a generator-based manager with a body")
     manifest = {
-        "text": "Lean: C09_children (for any sequence of the eight registration calls, the exit stack's context gets exactly one child per callback, in registration order, identifying the manager or callable, its sync/async kind, the method and the position — classify ∘ register = specOf), C09_one_child_per_callback, C09_order, C09_kind, C09_manager_is_obj (whatever the manager's truthiness: the repaired F10), C09_exiting (the generator-based glue sets inner_stack exactly when the manager is not exiting). Tie: real ExitStack / AsyncExitStack children vs the model; the full nested tree (inner stacks, their frames' contexts, children of children) is compared with a Python unfolding of the generated tree description on every run.",
+        "text": "Lean: C09_children (for any sequence of the eight registration calls, the exit stack's context gets exactly one child per callback, in registration order, identifying the manager or callable, its sync/async kind, the method and the position — classify ∘ register = specOf), C09_one_child_per_callback, C09_order, C09_kind, C09_manager_is_obj (whatever the manager's truthiness: the repaired F10), C09_F22_repaired (a pushed builtin is not taken for a manager because it has a __self__; a manager whose exit method goes by another name is still reported as entered), C09_exiting (the generator-based glue sets inner_stack exactly when the manager is not exiting). Tie: real ExitStack / AsyncExitStack children vs the model; the full nested tree (inner stacks, their frames' contexts, children of children) is compared with a Python unfolding of the generated tree description on every run.",
         "note": "What contextlib stores in _exit_callbacks for each registration method is CPython behaviour: assumed by the model (register), exercised by every stack in the corpus. The recursive unfolding of the whole tree is checked by the oracle, not proved.",
     }
     assumptions = ["contextlib's _exit_callbacks entries are as in CPython 3.12", "push(manager) and enter_context(manager) store identical entries"]
@@ -346,7 +378,11 @@ class C09(PropCheck):
                 case["_ops"] = []
                 for op in node["ops"]:
                     t = (op[1]["_tag"] if op[1] is not None else op[2])
-                    case["_ops"].append([op[0], int(t[1:])])
+                    name = op[0]
+                    if op[1] is not None and op[1]["kind"] == "plain" and op[1].get("style") and not op[1].get("block"):
+                        # what contextlib stores is a method object whose __func__ goes by another name
+                        name = "enter_async_context_aliased" if name in ASYNC_OPS else "enter_context_aliased"
+                    case["_ops"].append([name, int(t[1:])])
                 kids = []
                 for k in got[4]:
                     if k[0] != "K":
@@ -358,7 +394,11 @@ class C09(PropCheck):
                 return " ".join(kids)
             return "tree-only"
         finally:
-            co.close()
+            import contextlib as _cl
+            import io as _io
+
+            with _cl.redirect_stdout(_io.StringIO()):      # (a pushed `print` is called when the stack unwinds)
+                co.close()
 
     def model_line(self, case):
         if "_ops" not in case:
